@@ -16,7 +16,16 @@ def _kind(c, i):
     return "bytes"          # c12.jcut prints the cut document
 
 
+def _inner(c):
+    """c12.row <inner case> E <expected…>  ->  (inner case tokens, is_row)"""
+    if c and c[0] == "c12.row":
+        k = c.index("E") if "E" in c else len(c)
+        return c[1:k], True
+    return c, False
+
+
 def c12_nontrivial(c, i):
+    c, _ = _inner(c)
     # the decoder got past its first error exit: it produced a row / a cut / an event
     k = _kind(c, i)
     if c[0] == "c12.jcut":
@@ -25,8 +34,13 @@ def c12_nontrivial(c, i):
 
 
 def c12_classify(c, i):
+    c, is_row = _inner(c)
     d = DECODERS.get(c[0], c[0])
     out = ["dec=" + d, d + ":" + _kind(c, i)]
+    if is_row:
+        out.append(d + ":wellformed-row")
+        if c[0] == "c12.csv":
+            out.append("csv:row-delim=" + c[1])
     data = c[-1]
     n = 0 if data == "-" else len(data) // 2
     if c[0] not in ("c12.json",):
@@ -68,7 +82,7 @@ CFG = {
     "nontrivial": c12_nontrivial,
     "classify": c12_classify,
     "rule": "per format: every string over the format's delimiter alphabet (4-8 letters, incl. multi-byte tokens) up to length 4-9 "
-            "(bare and after a well-formed head), then random structured rows built from a word pool (with / without \\n, \\r\\n), "
+            "(bare and after a well-formed head), then well-formed rows with their expected fields (c12.row: P fails unless the IMPLEMENTATION decodes exactly the row; csv: every delimiter class incl. tab and space, empty first/middle/last cells, quoted cells with delimiter/quotes/newlines, terminators none/LF/CRLF), random structured rows built from a word pool (with / without \\n, \\r\\n), "
             "then mutations of those (truncation, byte flips, delimiter injection, deletion); JSON documents from the jt generator; "
             "protobuf wire messages and mutations. distinct = distinct case line; non-trivial = the decoder produced a row / cut a field",
     "corr_name": "Dec.<X>.decode = decoder.Decode<X> / (*<x>Decoder).Decode + DecodeToJson (row fields, caller's buffer after the call, event built)",
